@@ -122,6 +122,11 @@ where
                 eprintln!("Sending chain statistics failed: {e}");
             }
             last = now;
+            #[cfg(feature = "verif")]
+            crate::verif::proto_emit(crate::verif::Proto::Sent {
+                n: tracker.stats().n,
+                last: i == total - 1,
+            });
         }
 
         if i >= n_discard {
@@ -130,6 +135,9 @@ where
             );
         }
     }
+
+    #[cfg(feature = "verif")]
+    crate::verif::proto_emit(crate::verif::Proto::WorkerDone);
 
     // TODO: Somehow save state of the chains and enable continuing runs
     Ok(out)
@@ -316,11 +324,19 @@ where
                     active.remove(*i);
                 }
 
+                #[cfg(feature = "verif")]
+                crate::verif::proto_emit(crate::verif::Proto::ReporterIter {
+                    n_chains: most_recent.len(),
+                    n_finished,
+                });
+
                 if n_finished >= most_recent.len() {
                     break;
                 }
                 std::thread::sleep(sleep_ms);
             }
+            #[cfg(feature = "verif")]
+            crate::verif::proto_emit(crate::verif::Proto::ReporterExit);
         });
 
         let chain_sample: Vec<Array2<T>> = thread::scope(|s| {
